@@ -45,6 +45,14 @@ static const char *curated_texts[] = {
   "P : '(' P ')' # par (1) | 'x' # 0 | '(' error ')' # perr () | error 'x' # xerr () ;",
   // 19 nil-padded abstract node, partial/permuted translation
   "S : 'a' B 'c' # s 2 (2 - 0) ; B : 'b' B # b (1 0) | # nb () ;",
+  // 20 permuted translation with an ambiguous middle symbol (copy_anode with filled lower slots)
+  "S : A B C # s (2 1 0) ; A : 'a' # a1 (0) | 'a' 'a' # a2 (0 1) ; B : 'a' # b1 (0) | 'a' 'a' # b2 (1 0) ; C : 'c' # c1 (0) ;",
+  // 21 ternary ambiguous rule, reversed
+  "S : S S S # t (2 1 0) | 'a' # 0 ;",
+  // 22 four alternatives with equal and different costs at one ambiguity point
+  "S : A # top (0) ; A : 'a' # p 2 (0) | 'a' # q 1 (0) | 'a' # r 1 (0) | 'a' # s 1 (0) ;",
+  // 23 ambiguous expression, all costs equal (many ties)
+  "E : E '+' E # plus 1 (0 2) | 'a' # 0 ;",
   NULL
 };
 
